@@ -9,7 +9,7 @@ From Coq Require String.
 Lemma step_state g o st : snd (step g o st) = st ++ created (fst (step g o st)).
 Proof.
   unfold step. destruct (lookup_all st (op_targets o)) as [args|]; cbn [fst snd created].
-  - destruct (op_value g o args) as [v|]; cbn [fst snd created]; [reflexivity | symmetry; apply app_nil_r].
+  - destruct (op_value_gs g o args) as [v|]; cbn [fst snd created]; [reflexivity | symmetry; apply app_nil_r].
   - symmetry; apply app_nil_r.
 Qed.
 
@@ -52,7 +52,7 @@ Lemma step_value_extend g o st ext :
 Proof.
   intros H. destruct (lookup_all_defined st (op_targets o) H) as [args E].
   unfold step. rewrite (lookup_all_app st ext _ _ E), E.
-  destruct (op_value g o args); reflexivity.
+  destruct (op_value_gs g o args); reflexivity.
 Qed.
 
 (* ... and, more generally, in any two states that agree on the targets *)
@@ -69,7 +69,7 @@ Theorem step_value_local g o st st' :
   fst (step g o st) = fst (step g o st').
 Proof.
   intros H [args E]. unfold step. rewrite <- (lookup_all_agree st st' _ H), E.
-  destruct (op_value g o args); reflexivity.
+  destruct (op_value_gs g o args); reflexivity.
 Qed.
 
 (* ---------------- sequences ---------------- *)
@@ -160,7 +160,7 @@ Proof. intros H. rewrite !history_value_indep by exact H. reflexivity. Qed.
 
 (* single-target operations: the value after any history is op_value on the object as first stored *)
 Theorem history_value_exact g ops o st i x v :
-  op_targets o = [i] -> nth_error st i = Some x -> op_value g o [x] = Some v ->
+  op_targets o = [i] -> nth_error st i = Some x -> op_value_gs g o [x] = Some v ->
   fst (step g o (final g ops st)) = v.
 Proof.
   intros Ht Hx Hv. rewrite history_value_indep.
@@ -178,16 +178,18 @@ Proof. intros Hs Hc. destruct o; try discriminate; cbn [op_value]; rewrite Hc; r
 
 (* burn-in / thinning after any history: draws Nb, Nb+Nt, ... of the chain as first stored, flags kept *)
 Theorem history_burnthin_exact g ops st i nb nt x x' :
-  nth_error st i = Some x ->
+  nth_error st i = Some x -> (s_geom x < length g)%nat ->
   fst (step g (OBurnthin i nb nt) (final g ops st)) = VObj x' ->
   (forall k d, nth k (s_chain x') d = nth (nb + k * nt) (s_chain x) d) /\
   length (s_chain x') = ((length (s_chain x) - nb + nt - 1) / nt)%nat /\
   s_is_par x' = s_is_par x /\ s_is_vec x' = s_is_vec x /\ s_geom x' = s_geom x.
 Proof.
-  intros Hx Hv.
+  intros Hx Hg Hv.
   assert (E : fst (step g (OBurnthin i nb nt) (final g ops st)) =
               match obj_burnthin nb nt x with Some y => VObj y | None => VRefused end).
-  { apply (history_value_exact g ops (OBurnthin i nb nt) st i x); [reflexivity | exact Hx | reflexivity]. }
+  { apply (history_value_exact g ops (OBurnthin i nb nt) st i x); [reflexivity | exact Hx |].
+    unfold op_value_gs, geom_for. destruct (nth_error g (s_geom x)) eqn:En; [reflexivity|].
+    apply nth_error_None in En. lia. }
   rewrite E in Hv. destruct (obj_burnthin nb nt x) as [y|] eqn:Eb; [|discriminate].
   injection Hv as ->. destruct (obj_burnthin_flags _ _ _ _ Eb) as [F1 [F2 [F3 F4]]].
   repeat split; try assumption.
@@ -211,12 +213,17 @@ Proof.
 Qed.
 
 Theorem history_joint_exact g ops st ms nb nt xs rs :
-  lookup_all st ms = Some xs ->
+  lookup_all st ms = Some xs -> Forall (fun x => (s_geom x < length g)%nat) xs ->
   fst (step g (OJoint ms nb nt) (final g ops st)) = VObjs rs ->
   Forall2 (fun x r => obj_burnthin nb nt x = Some r) xs rs.
 Proof.
-  intros Hl Hv. rewrite history_value_indep in Hv.
-  - unfold step in Hv. cbn [op_targets] in Hv. rewrite Hl in Hv. cbn [op_value fst] in Hv.
+  intros Hl Hg Hv. rewrite history_value_indep in Hv.
+  - unfold step in Hv. cbn [op_targets] in Hv. rewrite Hl in Hv.
+    assert (Eg : op_value_gs g (OJoint ms nb nt) xs = op_value (mkG [] 1 0 false false false) (OJoint ms nb nt) xs).
+    { unfold op_value_gs, geom_for. destruct xs as [|x0 xr]; [reflexivity|].
+      destruct (nth_error g (s_geom x0)) eqn:En; [reflexivity|].
+      apply nth_error_None in En. inversion Hg; subst. lia. }
+    rewrite Eg in Hv. cbn [op_value fst] in Hv.
     destruct (burnthin_all nb nt xs) as [l|] eqn:E; [|discriminate].
     injection Hv as ->. apply burnthin_all_spec. exact E.
   - cbn [op_targets]. intros i Hi.
@@ -239,11 +246,13 @@ Proof. exists [("_grid", 3%Z); ("_variables", 5%Z)], "_funvec_shape", 1%Z. vm_co
 
 (* without a positive answer of the geometry comparison nothing is handed to arviz *)
 Theorem rhat_value_needs_geom_eq g i js m st args :
-  lookup_all st (i :: js) = Some args -> fst (step g (ORhat i js false m) st) = VRefused.
+  lookup_all st (i :: js) = Some args -> Forall (fun x => (s_geom x < length g)%nat) args ->
+  fst (step g (ORhat i js false m) st) = VRefused.
 Proof.
-  intros H. unfold step. cbn [op_targets]. rewrite H.
+  intros H Hg. unfold step. cbn [op_targets]. rewrite H.
   destruct args as [|x ys]; [cbn in H; destruct (nth_error st i); [destruct (lookup_all st js)|]; discriminate|].
-  reflexivity.
+  unfold op_value_gs, geom_for. destruct (nth_error g (s_geom x)) eqn:En; [reflexivity|].
+  apply nth_error_None in En. inversion Hg; subst. lia.
 Qed.
 
 (* R-hat hand-over: with validated lengths (repaired code) every chain handed to arviz is a stored chain,
@@ -275,7 +284,7 @@ Proof.
 Qed.
 
 Theorem rhat_one_draw_broadcast_refuted :
-  exists g x y d sq, g_rhat_bcast g = true /\ rhat_value g x [y] true RRank = VRhat d sq /\
+  exists g x y d sq, g_rhat_bcast g = true /\ rhat_value g x [y] true (RRank []) = VRhat d sq /\
     length (s_chain y) <> length (s_chain x) /\
     d = [("v", [[1; 2; 3; 4]; [7; 7; 7; 7]])]%Z.
 Proof.
